@@ -6,6 +6,11 @@ package main
 //                compares with the expectation computed by TLC (B1)
 //   c09 trace  : seeded random annotated trees (depth <= 4, <= 4 arguments, multi-byte alphabets), random
 //                documented malformations and wild edits; records {tpl, text, out, errs, ...} for TLC (B2)
+//   c09 replayhist : replays the TLC-enumerated HISTORIES (ExprSyntaxHist_Gen: Func registrations and Compile calls) on
+//                ONE long-lived key builder per history (optimising / not); every compiled template is evaluated
+//                again after every later step (B1, history layer)
+//   c09 histtrace : seeded random histories on one long-lived key builder whose templates share sub-arguments
+//                (well-formed and malformed), with registrations in between; records for ExprSyntaxHist_Trace (B2)
 //   c09 cli    : runs the `rare expression` binary on the vectors that need no test function
 //   c09 eval   : one template from the command line (debugging / replay of a finding)
 
@@ -29,7 +34,8 @@ import (
 )
 
 func main() {
-	vh.Main(vh.Commands{"replay": c09Replay, "trace": c09Trace, "cli": c09Cli, "eval": c09Eval})
+	vh.Main(vh.Commands{"replay": c09Replay, "trace": c09Trace, "cli": c09Cli, "eval": c09Eval,
+		"replayhist": c09ReplayHist, "histtrace": c09HistTrace})
 }
 
 type M = vh.M
@@ -46,17 +52,26 @@ const (
 	mGC = rune(57350)
 	mKO = rune(57351)
 	mKC = rune(57352)
+	mFV = rune(57353)
 )
 
 // registered transparent functions (ExprSyntax.tla Funcs)
 var funcNames = []string{"f", "g", "h1", "λx"}
 
-func transparent(name string) expressions.KeyBuilderFunction {
+func transparent(name string) expressions.KeyBuilderFunction { return transparentV(name, 0) }
+
+// version ver of the transparent function `name` (ExprSyntax.tla CallV / FV): versions differ in what they render,
+// so the observable tells which registration a compiled call is bound to
+func transparentV(name string, ver int) expressions.KeyBuilderFunction {
 	return func(args []expressions.KeyBuilderStage) (expressions.KeyBuilderStage, error) {
 		return func(ctx expressions.KeyBuilderContext) string {
 			var sb strings.Builder
 			sb.WriteRune(mFO)
 			sb.WriteString(name)
+			if ver != 0 {
+				sb.WriteRune(mFV)
+				sb.WriteString(strconv.Itoa(ver))
+			}
 			sb.WriteRune(mFA)
 			for i, a := range args {
 				if i > 0 {
@@ -72,14 +87,30 @@ func transparent(name string) expressions.KeyBuilderFunction {
 
 type recCtx struct{}
 
-func (recCtx) GetMatch(i int) string { return string(mGO) + strconv.Itoa(i) + string(mGC) }
+func (recCtx) GetMatch(i int) string  { return string(mGO) + strconv.Itoa(i) + string(mGC) }
 func (recCtx) GetKey(k string) string { return string(mKO) + k + string(mKC) }
 
 type result struct {
 	Out    string
-	Errs   []string
+	Errs   []string       // the set of reported classes, sorted
+	ErrN   map[string]int // how many errors of each class were reported
 	Panic  string
 	HasOut bool
+}
+
+var errClasses = []string{"unterminated", "empty", "unknownFunc"}
+
+func (r *result) errn() M {
+	m := M{"other": 0}
+	for _, c := range errClasses {
+		m[c] = r.ErrN[c]
+	}
+	for k, v := range r.ErrN {
+		if strings.HasPrefix(k, "other:") {
+			m["other"] = m["other"].(int) + v
+		}
+	}
+	return m
 }
 
 func classOf(e error) string {
@@ -94,9 +125,48 @@ func classOf(e error) string {
 	return "other:" + e.Error()
 }
 
-// run compiles text with a FRESH key builder and evaluates it twice against the recording context.
-func run(text string, opt bool) (res result) {
+func newBuilder(opt bool) *expressions.KeyBuilder {
+	kb := expressions.NewKeyBuilderEx(opt)
+	for _, n := range funcNames {
+		kb.Func(n, transparent(n))
+	}
+	return kb
+}
+
+// evalOn evaluates a compiled template twice against the recording context
+func evalOn(c *expressions.CompiledKeyBuilder) (out string, panicMsg string) {
+	done := make(chan struct{})
+	go func() {
+		defer close(done)
+		defer func() {
+			if r := recover(); r != nil {
+				panicMsg = fmt.Sprint(r)
+			}
+		}()
+		o1 := c.BuildKey(recCtx{})
+		o2 := c.BuildKey(recCtx{})
+		if o1 != o2 {
+			panicMsg = "second evaluation differs from the first"
+		}
+		out = o1
+	}()
+	select {
+	case <-done:
+	case <-time.After(60 * time.Second):
+		panicMsg = "no result within 60s"
+	}
+	return
+}
+
+// compileOn compiles text with the given (possibly long-lived) key builder and evaluates the result.
+func compileOn(kb *expressions.KeyBuilder, text string) (result, *expressions.CompiledKeyBuilder) {
+	return compileOnly(kb, text, true)
+}
+
+// compileOnly: eval = false leaves the first evaluation of the compiled template to the caller
+func compileOnly(kb *expressions.KeyBuilder, text string, eval bool) (res result, compiled *expressions.CompiledKeyBuilder) {
 	res.Errs = []string{}
+	res.ErrN = map[string]int{}
 	done := make(chan struct{})
 	go func() {
 		defer close(done)
@@ -105,31 +175,21 @@ func run(text string, opt bool) (res result) {
 				res.Panic = fmt.Sprint(r)
 			}
 		}()
-		kb := expressions.NewKeyBuilderEx(opt)
-		for _, n := range funcNames {
-			kb.Func(n, transparent(n))
-		}
 		c, err := kb.Compile(text)
 		if err != nil {
-			set := map[string]bool{}
 			for _, e := range err.Errors {
-				set[classOf(e)] = true
+				res.ErrN[classOf(e)]++
 			}
 			if len(err.Errors) == 0 {
-				set["other:empty error list"] = true
+				res.ErrN["other:empty error list"]++
 			}
-			for k := range set {
+			for k := range res.ErrN {
 				res.Errs = append(res.Errs, k)
 			}
 			sort.Strings(res.Errs)
 		}
 		if c != nil {
-			o1 := c.BuildKey(recCtx{})
-			o2 := c.BuildKey(recCtx{})
-			if o1 != o2 {
-				res.Panic = "second evaluation differs from the first"
-			}
-			res.Out, res.HasOut = o1, true
+			compiled = c
 		} else if err == nil {
 			res.Panic = "Compile returned neither a builder nor an error"
 		}
@@ -138,20 +198,32 @@ func run(text string, opt bool) (res result) {
 	case <-done:
 	case <-time.After(60 * time.Second):
 		res.Panic = "no result within 60s"
+		return
+	}
+	if eval && compiled != nil && res.Panic == "" {
+		res.Out, res.Panic = evalOn(compiled)
+		res.HasOut = res.Panic == ""
 	}
 	return
+}
+
+// run compiles text with a FRESH key builder and evaluates it twice against the recording context.
+func run(text string, opt bool) result {
+	res, _ := compileOn(newBuilder(opt), text)
+	return res
 }
 
 // ---------------------------------------------------------------------------- replay (B1)
 
 type vector struct {
-	G    string   `json:"g"`
-	Kind string   `json:"kind"`
-	Text []int    `json:"text"`
-	Out  []int    `json:"out"`
-	Lo   []string `json:"lo"`
-	Hi   []string `json:"hi"`
-	Cli  bool     `json:"cli"`
+	G    string         `json:"g"`
+	Kind string         `json:"kind"`
+	Text []int          `json:"text"`
+	Out  []int          `json:"out"`
+	Lo   []string       `json:"lo"`
+	Hi   []string       `json:"hi"`
+	Lon  map[string]int `json:"lon"` // err: how many errors of each class at least
+	Cli  bool           `json:"cli"`
 }
 
 func subset(a, b []string) bool {
@@ -183,8 +255,20 @@ func judge(v *vector, r result) string {
 			return "out"
 		}
 	case "err":
-		if !subset(v.Lo, r.Errs) || !subset(r.Errs, v.Hi) {
-			return "errs"
+		return judgeErr(v.Lo, v.Hi, v.Lon, r)
+	}
+	return ""
+}
+
+// a malformed template: must-report classes <= reported <= may-report classes, and every malformed statement is an
+// error of its own (at least lon[c] errors of class c)
+func judgeErr(lo, hi []string, lon map[string]int, r result) string {
+	if !subset(lo, r.Errs) || !subset(r.Errs, hi) {
+		return "errs"
+	}
+	for c, n := range lon {
+		if r.ErrN[c] < n {
+			return "errcount"
 		}
 	}
 	return ""
@@ -351,7 +435,8 @@ type gen struct {
 	rng      *rand.Rand
 	maxDepth int
 	maxArgs  int
-	noQuote  bool // inside a quoted sub-template: bare-word arguments only
+	noQuote  bool     // inside a quoted sub-template: bare-word arguments only
+	pool     []*anode // histories: arguments that recur in the templates of one history
 }
 
 func (g *gen) blanks(min, max int) []int {
@@ -495,7 +580,9 @@ func (g *gen) stmt(d int) *anode {
 		n := 1 + g.rng.Intn(g.maxArgs)
 		for j := 0; j < n; j++ {
 			a.Sep = append(a.Sep, g.blanks(1, 2))
-			if k := g.rng.Intn(100); k < 45 {
+			if len(g.pool) > 0 && !g.noQuote && g.rng.Intn(100) < 45 {
+				a.Args = append(a.Args, cloneNode(g.pool[g.rng.Intn(len(g.pool))]))
+			} else if k := g.rng.Intn(100); k < 45 {
 				a.Args = append(a.Args, g.argLit())
 			} else if k < 53 && !g.noQuote {
 				a.Args = append(a.Args, g.argQt(d))
@@ -514,11 +601,23 @@ func (g *gen) tpl() []*anode {
 	for i := 0; i < n; i++ {
 		if g.rng.Intn(5) < 2 {
 			out = append(out, g.topLit())
+		} else if p := g.poolStmt(); p != nil && g.rng.Intn(6) == 0 {
+			out = append(out, p)
 		} else {
 			out = append(out, g.stmt(1))
 		}
 	}
 	return out
+}
+
+// a statement of the history's pool (nil if there is none): the same text as an argument and at top level
+func (g *gen) poolStmt() *anode {
+	for _, i := range g.rng.Perm(len(g.pool)) {
+		if k := g.pool[i].K; k != "lit" && k != "qt" {
+			return cloneNode(g.pool[i])
+		}
+	}
+	return nil
 }
 
 // all statement nodes, with the index of the top-level node they belong to
@@ -645,8 +744,8 @@ func c09Trace(args []string) error {
 		if p == "" {
 			p = r2.Panic
 		}
-		w.Write(M{"kind": kind, "tpl": tpl, "text": text, "out": vh.R(r1.Out), "errs": r1.Errs,
-			"out2": vh.R(r2.Out), "errs2": r2.Errs, "panic": p != "", "pmsg": p})
+		w.Write(M{"kind": kind, "tpl": tpl, "text": text, "out": vh.R(r1.Out), "errs": r1.Errs, "errn": r1.errn(),
+			"out2": vh.R(r2.Out), "errs2": r2.Errs, "errn2": r2.errn(), "panic": p != "", "pmsg": p})
 	}
 	return nil
 }
@@ -806,7 +905,7 @@ func c09Eval(args []string) error {
 	for _, t := range args {
 		for _, opt := range []bool{true, false} {
 			r := run(t, opt)
-			b, _ := json.Marshal(M{"text": t, "opt": opt, "out": r.Out, "out_cp": vh.R(r.Out), "errs": r.Errs, "panic": r.Panic})
+			b, _ := json.Marshal(M{"text": t, "opt": opt, "out": r.Out, "out_cp": vh.R(r.Out), "errs": r.Errs, "errn": r.errn(), "panic": r.Panic})
 			fmt.Println(string(b))
 		}
 	}
